@@ -132,6 +132,10 @@ def _enumerate(case, ctx, m, rng):
         relabel = rng.permutation(n)
         edges = [(int(relabel[a]), int(relabel[b])) for a, b in G.edges()]
         names = LETTERS[:n]
+    if case['seed'] % 4 == 0:
+        # attribute names that are Python ints (what pandas gives an unnamed frame), in an order other than 0..n-1
+        names = list(range(n))
+        ctx.tag('attribute_names:int')
     ctx.tag('%s:n=%d' % (case['kind'], n))
     # attribute order of the domain and attribute sizes vary per batch (the greedy order depends on sizes)
     dom_attrs = [names[i] for i in rng.permutation(n)]
